@@ -560,6 +560,9 @@ func cafsProp(prop string) propFn {
 	return func(c *Ctx) {
 		c.Header = "From Coq Require Import List NArith.\nFrom DM Require Import Model.Cafs Model.CafsCheck.\nImport ListNotations.\nOpen Scope N_scope."
 		c.CaseTy = "ccase"
+		if prop == "C01" {
+			c.CaseTy = "xcase"
+		}
 		c.Report = map[string]string{"C01": "report01", "C02": "report02", "C03": "report03"}[prop]
 		c.PerFile = 12
 		py := newPyRef()
@@ -573,10 +576,20 @@ func cafsProp(prop string) propFn {
 			if len(cs.Damage) > 0 {
 				class += " damage=" + strings.Fields(cs.Damage[0].What)[0]
 			}
-			c.Emit(cs, cafsCoq(cs), key, class, "cafs")
+			term := cafsCoq(cs)
+			if prop == "C01" {
+				term = "Small " + term
+			}
+			c.Emit(cs, term, key, class, "cafs")
 		}
 		if len(c.Replay) > 0 {
 			for _, raw := range c.Replay {
+				var big cafsBig
+				if err := json.Unmarshal(raw, &big); err == nil && big.Big {
+					bc, term := cafsBigRun(big.L, big.Len, big.WriterTo, big.Prefetch, 0)
+					c.Emit(bc, term, "big", "big", "cafs-big")
+					continue
+				}
 				var cs cafsCase
 				if err := json.Unmarshal(raw, &cs); err != nil {
 					panic(err)
@@ -598,6 +611,9 @@ func cafsProp(prop string) propFn {
 			"C02": "histories of Puts into one shared blob store (same content again, contents sharing leaves, prefixes of earlier contents), flush concurrency 1..16; keys compared three ways: implementation, Gallina BLAKE2b tree model, Python hashlib; non-trivial = Put with at least one leaf, distinct by key",
 			"C03": "every kind of single-blob damage (bit flip at boundary/random positions, truncation, emptying, deletion, swap with a leaf of the same or of another object, root blob replaced by another object's root blob, appended bytes) on objects of 1..6 leaves, observed through Read, ReadAt and both WriteTo paths with cold caches; non-trivial = damaged case with at least one leaf, distinct by key+damage",
 		}[prop]
+		if prop == "C01" {
+			cafsBigCases(c, r)
+		}
 		var prevContents [][]byte
 		for i := 0; i < n; i++ {
 			L := leafSizes[r.Intn(len(leafSizes))]
@@ -615,7 +631,7 @@ func cafsProp(prop string) propFn {
 				}
 			}
 			chunks, wt := cafsChunking(r, content, L)
-			cs := &cafsCase{L: L, WriterTo: wt, ReaderMode: r.Intn(3), Prefetch: r.Intn(4), Flushes: []int{1, 2, 10, 16}[r.Intn(4)]}
+			cs := &cafsCase{L: L, WriterTo: wt, ReaderMode: r.Intn(4), Prefetch: r.Intn(4), Flushes: []int{1, 2, 10, 16}[r.Intn(4)]}
 			if r.Chance(1, 3) {
 				cs.CacheBytes = L * r.Range(1, 4)
 			}
@@ -678,4 +694,144 @@ func init() {
 	props["C01"] = cafsProp("C01")
 	props["C02"] = cafsProp("C02")
 	props["C03"] = cafsProp("C03")
+}
+
+// ---- production leaf sizes (C01 only): bytes compared by the harness ----
+
+type cafsBig struct {
+	Big      bool     `json:"big"`
+	L        int      `json:"L"`
+	Len      int      `json:"len"`
+	WriterTo bool     `json:"writerto"`
+	Prefetch int      `json:"prefetch"`
+	PutClass string   `json:"putclass"`
+	Written  int64    `json:"written"`
+	Probes   []string `json:"probes"` // kind:class:equal
+}
+
+func patternBytes(n int, seed int) []byte {
+	b := make([]byte, n)
+	for i := range b {
+		b[i] = byte((i*7 + seed + i/251) % 251)
+	}
+	return b
+}
+
+func cafsBigRun(L, n int, writerTo bool, prefetch int, seed int) (*cafsBig, string) {
+	bc := &cafsBig{Big: true, L: L, Len: n, WriterTo: writerTo, Prefetch: prefetch}
+	content := patternBytes(n, seed)
+	st := memstore.New("blob")
+	st.SetReaderMode([]int{3, 0, 3, 2}[seed%4])
+	cs := &cafsCase{L: L, Prefetch: prefetch, Flushes: 4}
+	fs := cafsFs(cs, st)
+	var res cafs.PutRes
+	bc.PutClass = guarded(60*time.Second, func() error {
+		var src io.Reader = &chunkSource{chunks: [][]byte{append([]byte(nil), content...)}}
+		if writerTo {
+			src = bytes.NewReader(content)
+		}
+		r, err := fs.Put(context.Background(), src)
+		res = r
+		return err
+	})
+	var probes []string
+	var coqProbes []string
+	add := func(kind, class string, equal bool) {
+		probes = append(probes, fmt.Sprintf("%s:%s:%v", kind, class, equal))
+		coqProbes = append(coqProbes, fmt.Sprintf("(%d%%N, %v)", map[string]int{"ok": 0, "hang": 1, "panic": 2, "err": 3}[class], equal))
+	}
+	if bc.PutClass == "ok" {
+		bc.Written = res.Written
+		window := func(off, k int) []byte {
+			if off > n {
+				off = n
+			}
+			e := off + k
+			if e > n {
+				e = n
+			}
+			return content[off:e]
+		}
+		// sequential read with a 32 KiB buffer
+		{
+			var out []byte
+			fsr := cafsFs(cs, st)
+			cl := guarded(60*time.Second, func() error {
+				r, err := fsr.Get(context.Background(), res.Key)
+				if err != nil {
+					return err
+				}
+				defer r.Close()
+				buf := make([]byte, 32*1024)
+				for {
+					k, err := r.Read(buf)
+					out = append(out, buf[:k]...)
+					if err == io.EOF {
+						return nil
+					}
+					if err != nil {
+						return err
+					}
+				}
+			})
+			add("seq", cl, cl == "ok" && bytes.Equal(out, content))
+		}
+		for _, at := range [][2]int{{0, n + 10}, {L - 1, 2}, {L, 100}, {n - 1, 5}, {n, 5}, {n + 3, 5}, {L / 2, L}, {0, L}} {
+			if at[0] < 0 {
+				continue
+			}
+			var out []byte
+			fsr := cafsFs(cs, st)
+			cl := guarded(20*time.Second, func() error {
+				r, err := fsr.GetAt(context.Background(), res.Key)
+				if err != nil {
+					return err
+				}
+				buf := make([]byte, at[1])
+				k, err := r.ReadAt(buf, int64(at[0]))
+				out = buf[:k]
+				if err == io.EOF {
+					return nil
+				}
+				return err
+			})
+			add(fmt.Sprintf("at(%d,%d)", at[0], at[1]), cl, cl == "ok" && bytes.Equal(out, window(at[0], at[1])))
+		}
+		{
+			fsr := cafsFs(cs, st)
+			w := &memWriterAt{}
+			cl := guarded(60*time.Second, func() error {
+				r, err := fsr.Get(context.Background(), res.Key)
+				if err != nil {
+					return err
+				}
+				defer r.Close()
+				_, err = r.(io.WriterTo).WriteTo(w)
+				return err
+			})
+			add("wtat", cl, cl == "ok" && bytes.Equal(w.buf, content))
+		}
+	}
+	bc.Probes = probes
+	term := fmt.Sprintf("Big {| bg_L := %d%%N; bg_len := %d%%N; bg_put_ok := %v; bg_written_ok := %v; bg_probes := [%s] |}",
+		L, n, bc.PutClass == "ok", bc.Written == int64(n), strings.Join(coqProbes, "; "))
+	return bc, term
+}
+
+func cafsBigCases(c *Ctx, r *gen.Rand) {
+	const MiB = 1 << 20
+	leafs := []int{1 * MiB, 2 * MiB, 5 * MiB, MiB + MiB/2}
+	if !c.Quick() {
+		leafs = append(leafs, 3*MiB, 4*MiB, 64*1024, 1000003)
+	}
+	for i, L := range leafs {
+		lens := []int{L, L + 1, 2*L + 17}
+		if !c.Quick() {
+			lens = append(lens, L-1, 2*L, 3*L)
+		}
+		for j, n := range lens {
+			bc, term := cafsBigRun(L, n, (i+j)%2 == 0, (i+j)%3, i*31+j)
+			c.Emit(bc, term, fmt.Sprintf("big/%d/%d", L, n), fmt.Sprintf("big L=%d put=%s", L, bc.PutClass), "cafs-big")
+		}
+	}
 }
